@@ -159,15 +159,28 @@ def gen_sess_case(rng, case_id):
                     for _ in range(rng.choice([1, 1, 2, 3])):
                         j = i if rng.random() < 0.8 else rng.choice(list(range(nprobe)) + [99])
                         if rng.random() < 0.5:
-                            ops.append(("rcast", j, rng.choice([1, 2, 3, 4]), rnd_bytes(rng)))
+                            ops.append(("rcast", j, rng.choice([1, 2, 3, 4]), [1] + rnd_bytes(rng)))
                         else:
-                            ops.append(("rcall", j, rng.randrange(1, 50), rng.choice([1, 2, 3, 4, 6]), rnd_bytes(rng)))
-        elif r < 0.36:
+                            ops.append(("rcall", j, rng.randrange(1, 50), rng.choice([1, 2, 3, 4, 6]), [2] + rnd_bytes(rng)))
+        elif r < 0.33:
             i = rng.choice(list(range(nprobe)) + [99])
-            ops.append(("rcast", i, rng.choice([1, 2, 3, 4]), rnd_bytes(rng)))
+            ops.append(("rcast", i, rng.choice([1, 2, 3, 4]), [rng.choice([1, 2])] + rnd_bytes(rng)))
+        elif r < 0.43:
+            i = rng.choice(list(range(nprobe)) + [99])
+            ops.append(("rcall", i, rng.randrange(1, 50), rng.choice([1, 2, 3, 4, 6]), [rng.choice([1, 2])] + rnd_bytes(rng)))
         elif r < 0.48:
-            i = rng.choice(list(range(nprobe)) + [99])
-            ops.append(("rcall", i, rng.randrange(1, 50), rng.choice([1, 2, 3, 4, 6]), rnd_bytes(rng)))
+            # a burst of frames already queued at the session, handled back to back: one sender issues
+            # calls (not awaited) and casts to the same actor; arrival order = sending order
+            i = rng.choice(sorted(alive)) if alive else 99
+            snd = rng.choice([1, 2])
+            n = rng.choice([2, 2, 3, 4, 6])
+            for j in range(n):
+                held = "h" if j < n - 1 else ""
+                sb = [snd if rng.random() < 0.85 else 3 - snd] + [j] + rnd_bytes(rng)
+                if rng.random() < 0.5:
+                    ops.append((held + "rcall", i, rng.randrange(1, 50), rng.choice([2, 4, 6, 3]), sb))
+                else:
+                    ops.append((held + "rcast", i, rng.choice([1, 2, 3, 4]), sb))
         elif r < 0.56:
             ops.append(("fspawn", rng.choice(qs)))
         elif r < 0.60:
@@ -196,10 +209,10 @@ def sess_line(c):
     parts = []
     for op in c["ops"]:
         k = op[0]
-        if k in ("rcast", "send"):
+        if k in ("rcast", "hrcast", "send"):
             parts.append(f"{k} {op[1]} {op[2]} {b(op[3])}")
-        elif k == "rcall":
-            parts.append(f"rcall {op[1]} {op[2]} {op[3]} {b(op[4])}")
+        elif k in ("rcall", "hrcall"):
+            parts.append(f"{k} {op[1]} {op[2]} {op[3]} {b(op[4])}")
         elif k == "scall":
             parts.append(f"scall {op[1]} {op[2]} {b(op[3])} {op[4]}")
         elif k == "freply":
@@ -223,9 +236,9 @@ def sess_model(c):
             ops.append(f"ULeave {op[1]} {op[2]}")
         elif k in ("exit", "hexit"):
             ops.append(f"UExit {op[1]}")
-        elif k == "rcast":
+        elif k in ("rcast", "hrcast"):
             ops.append(f"URecvF (FMsg {op[1]} 0 (mkMsg false {op[2]} {bl(op[3])}) 0)")
-        elif k == "rcall":
+        elif k in ("rcall", "hrcall"):
             ops.append(f"URecvF (FMsg {op[1]} {op[2]} (mkMsg true {op[3]} {bl(op[4])}) 0)")
         elif k == "fspawn":
             ops.append(f"URecvB (FSpawn {RB + op[1]})")
@@ -248,6 +261,19 @@ def sess_model(c):
     return f"urun 4 {xs} {ys} (init 0 0) [" + "; ".join(ops) + "]"
 
 
+def sess_inbound(c):
+    """the Cast/Call frames that arrive, in arrival order: list (N * msg)"""
+    def bl(x):
+        return "[" + "; ".join(map(str, x)) + "]"
+    items = []
+    for op in c["ops"]:
+        if op[0] in ("rcast", "hrcast"):
+            items.append(f"({op[1]}, mkMsg false {op[2]} {bl(op[3])})")
+        elif op[0] in ("rcall", "hrcall"):
+            items.append(f"({op[1]}, mkMsg true {op[3]} {bl(op[4])})")
+    return "[" + "; ".join(items) + "]"
+
+
 def canon_u(t, ops=None):
     """Sort the per-operation wire frames (HashSet iteration order on the implementation side).
     A held exit (`hexit`: the actor is gone, the session has not handled the lifecycle event yet) is
@@ -263,7 +289,7 @@ def canon_u(t, ops=None):
         if acc is not None:
             wire, dlv, res = acc[0] + wire, acc[1] + dlv, acc[2] + res
             acc = None
-        if ops is not None and j < len(ops) and ops[j][0] == "hexit":
+        if ops is not None and j < len(ops) and ops[j][0] in ("hexit", "hrcast", "hrcall"):
             acc = (wire, dlv, res)
             continue
         out.append(("mkU", u[1], sorted(wire, key=show_term), dlv, res, u[5], u[6]))
@@ -376,7 +402,10 @@ def traffic(s, n, fault_free=True):
             mode = rng.choice([0, 0, 0, 1, 1, 2, 3])
             delay = rng.choice([1, 5, 30]) if mode == 1 else 0
             timeout = rng.choice([0, 0, 5, 100])
-            s.call(10 + rng.randrange(4), rng.choice([0, 1]), rng.choice(tgts if rng.random() < 0.9 else anyt),
+            # callers share the senders' identities half of the time: a sender's calls and casts to one
+            # remote reference form ONE stream whose order must be preserved
+            who = rng.randrange(4) if rng.random() < 0.5 else 10 + rng.randrange(4)
+            s.call(who, rng.choice([0, 1]), rng.choice(tgts if rng.random() < 0.9 else anyt),
                    mode, delay, timeout, rng.choice([0, 8, 16, 200]))
         elif r < 0.86:
             live = [rid for rid, c in s.calls.items() if c["mode"] in (1, 2, 3)]
@@ -411,7 +440,26 @@ def gen_net_case(rng, kind):
     s.connect()
     s.settle()
     s.obs()
-    if kind == "burst":
+    if kind == "callcast":
+        # one sender issues calls WITHOUT awaiting them and then casts / further calls to the same remote
+        # reference; all frames are queued at the peer session before it gets to run
+        for _ in range(rng.choice([2, 4, 8])):
+            tgt = rng.choice(sorted(s.known))
+            via = rng.choice([0, 1])
+            who = rng.randrange(3)
+            for _ in range(rng.choice([2, 3, 5])):
+                if rng.random() < 0.5:
+                    mode = rng.choice([0, 0, 1, 2])
+                    s.call(who, via, tgt, mode, 5 if mode == 1 else 0, 0, rng.choice([0, 8, 40]))
+                else:
+                    s.cast(who, via, tgt, rng.choice([0, 5, 40]))
+            if rng.random() < 0.4:
+                s.settle()
+        s.settle()
+        s.op("advance 300")
+        s.settle()
+        s.obs()
+    elif kind == "burst":
         # many outstanding calls through ONE proxy, most of them never answered and abandoned by
         # timeout, so that the proxy reclaims beyond its per-message budget of 16; then live traffic
         tgt = sorted(s.known)[0]
@@ -508,6 +556,22 @@ def load_corpus():
     return out
 
 
+def expect_up_of(line):
+    """per `obs`: the nodes were connected and the scenario has not cut the link so far"""
+    out, connected, cut = [], False, False
+    for op in line.split("|", 1)[1].split(";"):
+        w = op.split()
+        if not w:
+            continue
+        if w[0] == "connect":
+            connected = True
+        elif w[0] == "cut":
+            cut = True
+        elif w[0] == "obs":
+            out.append(connected and not cut)
+    return out
+
+
 def parse_obs(t):
     """('mkObs', sent, recv, calls, snaps, stale)"""
     assert isinstance(t, tuple) and t[0] == "mkObs", t
@@ -588,17 +652,18 @@ def run(chk):
     sexprs = [sess_model(c) for c in scases]
     for c, out in zip(scases, impl):
         exited = sorted({op[1] for op in c["ops"] if op[0] in ("exit", "hexit")})
-        sexprs.append(f"check_C20_sess [{'; '.join(map(str, exited))}] {out}")
+        sexprs.append(f"check_C20_sess [{'; '.join(map(str, exited))}] {out} && check_C20_sess_order {sess_inbound(c)} {out}")
     model = coq_eval(TAG + "s", IMPORTS, sexprs)
     for i, c in enumerate(scases):
         mv = canon_u(parse_term(model[i]), c["ops"])
         iv = canon_u(parse_term(impl[i]), c["ops"])
         if model[n_ss + i] != "true":
             desc = json.dumps({"kind": "sess", "harness_line": sess_line(c),
-                               "clause": "every announced local actor that exited is reported with a Terminate frame",
+                               "clause": "every announced local actor that exited is reported with a Terminate frame; what a local actor "
+                                         "handled is, per sender, a subsequence of the frames that arrived for it, in arrival order (calls included)",
                                "impl": impl[i]}, indent=1)
-            chk.violation("session: an announced actor exited and the peer was never told (no Terminate frame): "
-                          "its remote reference never stops",
+            chk.violation("session: an announced actor's exit was never reported (no Terminate frame), or frames from one sender "
+                          "were handed to the actor out of arrival order",
                           "C20 oracle check_C20_sess rejects what the real NodeSession handlers wrote\n" + desc)
             continue
         chk.coverage["evaluations"] += 1
@@ -621,7 +686,7 @@ def run(chk):
     ncases = []
     n_net = (200 if quick else 3000) * factor
     for i in range(n_net):
-        kind = ["strict", "strict", "exit", "cut", "cut", "burst"][i % 6]
+        kind = ["strict", "strict", "exit", "cut", "cut", "burst", "callcast"][i % 7]
         s = gen_net_case(rng, kind)
         ncases.append({"kind": kind, "line": s.line(), "strict": s.strict, "expect": sorted(s.expect),
                        "quiescent": s.quiescent})
@@ -643,7 +708,9 @@ def run(chk):
         b = lambda x: "true" if x else "false"
         q = "[" + "; ".join(b(x) for x in c["quiescent"]) + "]"
         ex = "[" + "; ".join(map(str, c["expect"])) + "]"
-        exprs.append(f"check_C20 {b(c['strict'])} {b(closed)} {ex} {q} ({out})")
+        eu = "[" + "; ".join(b(x) for x in expect_up_of(c["line"])) + "]"
+        c["expect_up"] = eu
+        exprs.append(f"check_C20 {b(c['strict'])} {b(closed)} {ex} {q} {eu} ({out})")
     verdicts = coq_eval(TAG + "n", IMPORTS, exprs)
     n_closed = 0
     for c, o, v, out in zip(ncases, obs, verdicts, impl):
@@ -662,11 +729,11 @@ def run(chk):
             parts = coq_eval(TAG + "n1", IMPORTS, [
                 f"(let o := ({out}) in (check_fifo {'true' if c['strict'] else 'false'} o, "
                 f"check_calls {'true' if c['strict'] else 'false'} (fun rid => memN rid [{'; '.join(map(str, c['expect']))}]) o, "
-                f"map check_snap (o_snaps o), check_stale {'false' if last_up(o) else 'true'} o))"], shards=1)
+                f"map check_snap (o_snaps o), check_up {c['expect_up']} o, check_stale {'false' if last_up(o) else 'true'} o))"], shards=1)
             desc = json.dumps({"kind": "net", "scenario_kind": c["kind"], "harness_line": c["line"],
                                "strict": c["strict"], "expect_reply": c["expect"], "quiescent": c["quiescent"],
-                               "clauses(fifo,calls,snaps,stale)": parts[0], "impl": out}, indent=1)
-            chk.violation("two real nodes: order / reply correlation / mirror / close clause violated",
+                               "clauses(fifo,calls,snaps,up,stale)": parts[0], "impl": out}, indent=1)
+            chk.violation("two real nodes: order / reply correlation / mirror / session-up / close clause violated",
                           "C20 oracle check_C20 rejects what the two real nodes did\n" + desc)
         if len(chk.coverage["samples"]) < 3 and c["kind"] in ("strict", "cut") and len(o["recv"]) > 4:
             chk.coverage["samples"].append({"harness_line": c["line"], "impl": out[:1500], "oracle": v})
